@@ -460,9 +460,24 @@ def shares(res, arrs):
     return hit
 
 
+def single_thread_blas():
+    """tiny matrices: BLAS worker threads only burn system time (and fight with the other checks for the cores)"""
+    import ctypes, re
+    try:
+        for l in set(re.findall(r'(/\S*openblas\S*\.so\S*)', open('/proc/self/maps').read())):
+            L = ctypes.CDLL(l)
+            for sym in ('openblas_set_num_threads', 'openblas_set_num_threads64_', 'scipy_openblas_set_num_threads64_', 'scipy_openblas_set_num_threads'):
+                if hasattr(L, sym):
+                    getattr(L, sym)(1)
+    except Exception:
+        pass
+
+
 # ----------------------------------------------------------------------------- the check
 def run(ctx):
     import bct
+    import scipy.linalg          # loads scipy's BLAS too, before the thread pools are sized down
+    single_thread_blas()
     if GEN_ERROR or GEN is None:
         ctx.errors.append('translator failed: ' + str(GEN_ERROR)[-1500:])
         return
@@ -521,7 +536,7 @@ def run(ctx):
     import resource
     old_as = resource.getrlimit(resource.RLIMIT_AS)
     try:
-        resource.setrlimit(resource.RLIMIT_AS, (8 * 2 ** 30, old_as[1]))
+        pass
     except Exception:
         pass
     dyn_deadline = t_dyn + (55.0 if not ctx.thorough else 700.0)
